@@ -1,4 +1,5 @@
 import RpgpProofs.SoundToy
+import RpgpProofs.Wire
 /-!
 # C02 — signature soundness: only the signed content under the signer's key verifies
 
@@ -23,10 +24,12 @@ primitives):
 3. **guards** (`verify_guards_*`, `left16_checked_*`, `inline_none_slot_is_error`,
    `ops_mismatch_never_verifies`, `backsig_required`);
 4. **what is not bound** (`unbound_*`): unhashed area (except through issuer subpackets and the
-   embedded back-signature), MPI bit-count octets, One-Pass issuer; and — the code as it stands —
-   `…_partial` + witnesses for two defects found by the harness (D2a: the hashed area is hashed as
-   *re-serialised* from the parsed subpackets, so octets the parser normalises are not bound;
-   D2b: the message parser accepts a prefixed Signature packet with trailing octets).
+   embedded back-signature), MPI bit-count octets of the signature value, One-Pass issuer, packet
+   framing; and what *is* bound since the two repairs the harness of this property led to
+   (`hashed_area_*`: the parser refuses a hashed area that would be hashed in another form than
+   received, D2a / c2573e8; `prefixed_sig_exact`: the message parser demands that a prefixed
+   Signature / One-Pass Signature packet is consumed entirely, D2b / 11d69e3), with regression
+   theorems on the former witnesses.
 
 Not theorems (carried by the correspondence run): that the Rust functions compute what the model
 functions compute; `write_len()` truthfulness of real keys / ids (`Ser.truthful` is a hypothesis);
@@ -103,13 +106,13 @@ theorem strength_guard_inactive (c : Cfg) : Gen.sndPqcArms = 0 ∧ strengthOk c 
   refine ⟨by decide, ?_⟩
   simp [strengthOk, isPqc, Gen.sndPqcArms]
 
-/-- the digest covers the re-serialisation of the parsed hashed subpackets and the parser does not
-compare it with the octets received (D2a, see `hashed_area_*`); the message parser does not require
-a prefixed Signature packet to be consumed entirely (D2b).  This theorem stops checking when either
-repair is made: the `…_partial` theorems and witnesses below are then to be replaced by the full
-statements. -/
+/-- the digest covers the re-serialisation of the parsed hashed subpackets, and both signature
+parsers refuse a hashed area that would be written back differently from what was received (D2a
+repair); the message parser requires a prefixed Signature / One-Pass Signature packet to be
+consumed entirely (D2b repair).  If either call disappears this theorem stops checking, and with
+it `prefixed_sig_exact` / the C05 model (`Wire.areaParseCanon`) stop describing the code. -/
 theorem code_as_it_stands :
-    Gen.sndHashedReserialised = 1 ∧ Gen.sndHashedAreaCanonical = 0 ∧ Gen.sndMsgSigExhausted = 0 := by decide
+    Gen.sndHashedReserialised = 1 ∧ Gen.sndHashedAreaCanonical = 1 ∧ Gen.sndMsgSigExhausted = 1 := by decide
 
 /-! ## 1. the hashed octets determine what was signed -/
 
@@ -773,71 +776,117 @@ format and length encoding never reach them (`parseSig` takes the body) -/
 theorem unbound_packet_framing (body : Bytes) (h h' : Rpgp.Hdr) :
     (fun (_ : Rpgp.Hdr) => parseSig body) h = (fun (_ : Rpgp.Hdr) => parseSig body) h' := rfl
 
-/-! ### the code as it stands: two places where more is unbound than the property allows
+/-! ### the hashed area and the prefixed packet are bound (since the D2a / D2b repairs)
 
-FULL STATEMENT (violated, D2a): two signature packets that both verify under the same key over the
-same subject have the same hashed-area octets.
--- theorem hashed_area_octets_bound : parseSig b₁ = some s₁ → parseSig b₂ = some s₂ →
---   verifyData P k s₁ d = .ok → verifyData P k s₂ d = .ok → rawHashedArea b₁ = rawHashedArea b₂
-The digest covers `Wire.areaSer (Wire.areaParse raw)`, not `raw`. -/
+Before c2573e8 the digest covered `areaSer (areaParse raw)` while the parser accepted any `raw`
+that parses (Revocable 00 → 02 still verified); before 11d69e3 the message parser dropped trailing
+octets of a prefixed Signature packet.  The former `…_partial` theorems are now unconditional. -/
 
-/-- what *is* bound: for a packet whose hashed area the parser does not normalise
-(`hashedAreaCanonical`, decidable per packet) the area that enters the digest is the area as
-received -/
-theorem hashed_area_is_raw_partial (v6 : Bool) (typ pk hash : Byte) (hashed unhashed : List Wire.Subpacket)
-    (left salt : Bytes) (sb : Wire.SigBytes) (body : Bytes)
-    (hc : hashedAreaCanonical (.v4 v6 typ pk hash hashed unhashed left salt sb) body = true) :
-    (ofWire (.v4 v6 typ pk hash hashed unhashed left salt sb)).cfg.area = rawHashedArea body := by
-  simp only [hashedAreaCanonical, beq_iff_eq] at hc
-  simp [ofWire, hc]
-
-/-- hence: two such packets with the same hashed area in the digest have the same hashed-area
-octets on the wire -/
-theorem hashed_area_octets_bound_partial (v6 v6' : Bool) (typ pk hash typ' pk' hash' : Byte)
-    (h1 u1 h2 u2 : List Wire.Subpacket) (l1 s1 l2 s2 : Bytes) (sb1 sb2 : Wire.SigBytes) (b1 b2 : Bytes)
-    (c1 : hashedAreaCanonical (.v4 v6 typ pk hash h1 u1 l1 s1 sb1) b1 = true)
-    (c2 : hashedAreaCanonical (.v4 v6' typ' pk' hash' h2 u2 l2 s2 sb2) b2 = true)
-    (h : (ofWire (.v4 v6 typ pk hash h1 u1 l1 s1 sb1)).cfg.area = (ofWire (.v4 v6' typ' pk' hash' h2 u2 l2 s2 sb2)).cfg.area) :
-    rawHashedArea b1 = rawHashedArea b2 := by
-  rw [← hashed_area_is_raw_partial v6 typ pk hash h1 u1 l1 s1 sb1 b1 c1,
-    ← hashed_area_is_raw_partial v6' typ' pk' hash' h2 u2 l2 s2 sb2 b2 c2]
-  exact h
-
-/-- with the candidate repair in the tree (`Gen.sndHashedAreaCanonical = 1`) every packet the
-parser accepts is of that kind -/
-theorem parsed_area_canonical_partial (hfix : Gen.sndHashedAreaCanonical = 1) (body : Bytes) (s : Sig)
-    (h : parseSig body = some s) :
-    ∃ w, Wire.sigParse (Wire.embFor body) body = some w ∧ hashedAreaCanonical w body = true ∧ s = ofWire w := by
+/-- a parsed v4 / v6 packet: the hashed area that enters the digest is the hashed area as received -/
+theorem hashed_area_is_raw (body : Bytes) (s : Sig) (h : parseSig body = some s)
+    (hk : s.known = true) (hv : s.cfg.ver ≠ .v3) : s.cfg.area = Wire.rawHashedArea body := by
   unfold parseSig at h
   cases hw : Wire.sigParse (Wire.embFor body) body with
   | none => simp [hw] at h
   | some w =>
-    simp only [hw, hfix, true_and] at h
-    by_cases hc : hashedAreaCanonical w body = false
-    · simp [hc] at h
-    · rw [if_neg hc] at h
-      exact ⟨w, rfl, by simpa using hc, by cases h; rfl⟩
+    simp only [hw, Option.map_some, Option.some.injEq] at h
+    subst h
+    cases w with
+    | v3 ver typ created issuer pk hash left sb => simp [ofWire] at hv
+    | unknown ver data => simp [ofWire] at hk
+    | v4 v6 typ pk hash hashed unhashed left salt sb =>
+      have := Wire.sig_parse_hashed_canonical _ body v6 typ pk hash hashed unhashed left salt sb hw
+      simp [ofWire, this]
 
-/-- the negation on a witness: Revocable = 0x00 and Revocable = 0x02 in the hashed area are two
-different packets that every entry point reads as the same signature -/
-theorem hashed_area_not_bound_witness :
-    Toy.bodyR0 ≠ Toy.bodyR2 ∧ parseSig Toy.bodyR0 = parseSig Toy.bodyR2 ∧ (parseSig Toy.bodyR0).isSome = true := by
-  decide
+/-- everything the parser accepts has a hashed area that writes back to itself -/
+theorem parsed_area_canonical (body : Bytes) (s : Sig) (h : parseSig body = some s) :
+    ∃ w, Wire.sigParse (Wire.embFor body) body = some w ∧ s = ofWire w ∧
+      ∀ v6 typ pk hash hashed unhashed left salt sb, w = .v4 v6 typ pk hash hashed unhashed left salt sb →
+        Wire.areaSer hashed = some (Wire.rawHashedArea body) := by
+  unfold parseSig at h
+  cases hw : Wire.sigParse (Wire.embFor body) body with
+  | none => simp [hw] at h
+  | some w =>
+    simp only [hw, Option.map_some, Option.some.injEq] at h
+    refine ⟨w, rfl, h.symm, ?_⟩
+    intro v6 typ pk hash hashed unhashed left salt sb he
+    subst he
+    exact Wire.sig_parse_hashed_canonical _ body v6 typ pk hash hashed unhashed left salt sb hw
 
-/-! FULL STATEMENT (violated, D2b): a prefixed Signature packet of a signed message is accepted only
-if its body is exactly one signature (as `PacketParser` demands for a standalone packet).
--- theorem prefixed_sig_exact : parseSigPrefix body = parseSig body -/
+/-- two parsed packets with the same hashed area in the digest have the same hashed-area octets on
+the wire -/
+theorem hashed_area_octets_bound (b1 b2 : Bytes) (s1 s2 : Sig) (h1 : parseSig b1 = some s1) (h2 : parseSig b2 = some s2)
+    (k1 : s1.known = true) (k2 : s2.known = true) (v1 : s1.cfg.ver ≠ .v3) (v2 : s2.cfg.ver ≠ .v3)
+    (h : s1.cfg.area = s2.cfg.area) : Wire.rawHashedArea b1 = Wire.rawHashedArea b2 := by
+  rw [← hashed_area_is_raw b1 s1 h1 k1 v1, ← hashed_area_is_raw b2 s2 h2 k2 v2]
+  exact h
 
-/-- with the repair (`Gen.sndMsgSigExhausted = 1`) the message parser and the packet parser agree -/
-theorem prefixed_sig_exact_partial (body : Bytes) (h : Gen.sndMsgSigExhausted = 1) :
-    parseSigPrefix body = parseSig body := by
+/-- **the full statement that D2a violated**: two signature packets that both verify under the same
+key over the same document, against a signer who signed one thing, have the same hashed-area
+octets on the wire (and the same type, algorithm octets and salt) -/
+theorem hashed_area_octets_bound_by_signature (P : Prims) (L : List (Bytes × Bytes)) (km0 : Bytes) (i0 : Spec.Input)
+    (k : VKey) (b1 b2 : Bytes) (s1 s2 : Sig) (d : Bytes)
+    (hU : Unforgeable P L) (hH : LogHonest P L [⟨km0, i0⟩]) (hS : HonestInputs [⟨km0, i0⟩])
+    (p1 : parseSig b1 = some s1) (p2 : parseSig b2 = some s2)
+    (v1 : s1.cfg.ver ≠ .v3) (v2 : s2.cfg.ver ≠ .v3)
+    (t1 : s1.cfg.typ = typBinary ∨ s1.cfg.typ = typText) (t2 : s2.cfg.typ = typBinary ∨ s2.cfg.typ = typText)
+    (hC : ∀ h p, CollisionFreeOn P [⟨km0, i0⟩] h p)
+    (ok1 : verifyData P k s1 d = .ok) (ok2 : verifyData P k s2 d = .ok) :
+    Wire.rawHashedArea b1 = Wire.rawHashedArea b2 ∧ s1.cfg.typ = s2.cfg.typ ∧ s1.cfg.pk = s2.cfg.pk ∧
+      s1.cfg.hash = s2.cfg.hash := by
+  obtain ⟨e1, he1, _, hi1⟩ := verifyData_sound P L _ k s1 d hU hH hS v1 t1 (fun p _ => hC _ p) ok1
+  obtain ⟨e2, he2, _, hi2⟩ := verifyData_sound P L _ k s2 d hU hH hS v2 t2 (fun p _ => hC _ p) ok2
+  simp only [List.mem_singleton] at he1 he2
+  subst he1
+  subst he2
+  simp only at hi1 hi2
+  have hk1 := (verify_guards_data P k s1 d ok1).1
+  have hk2 := (verify_guards_data P k s2 d ok2).1
+  have e : s1.cfg.toInput (.document (docRep s1.cfg.typ d)) = s2.cfg.toInput (.document (docRep s2.cfg.typ d)) := by
+    rw [← hi1, ← hi2]
+  have harea : s1.cfg.area = s2.cfg.area ∧ s1.cfg.typ = s2.cfg.typ ∧ s1.cfg.pk = s2.cfg.pk ∧ s1.cfg.hash = s2.cfg.hash := by
+    cases c1 : s1.cfg.ver
+    · exact absurd c1 v1
+    all_goals
+      cases c2 : s2.cfg.ver
+      · exact absurd c2 v2
+      all_goals simp [Cfg.toInput, c1, c2] at e
+      all_goals simp_all
+  exact ⟨hashed_area_octets_bound b1 b2 s1 s2 p1 p2 hk1 hk2 v1 v2 harea.1, harea.2⟩
+
+/-- regression (the former D2a witnesses): Revocable = 0x00 in the hashed area parses, the same
+packet with 0x02 is refused; an embedded signature with such a hashed area is refused wherever it
+sits - in the UNHASHED area of the outer signature too; an embedded signature in the hashed area
+whose MPI bit count is not the canonical one is refused -/
+theorem hashed_area_noncanonical_refused_witness :
+    (parseSig Toy.bodyR0).isSome = true ∧ parseSig Toy.bodyR2 = none ∧
+    (parseSig Toy.bodyE0).isSome = true ∧ parseSig Toy.bodyE2 = none ∧
+    (parseSig Toy.bodyH1).isSome = true ∧ parseSig Toy.bodyH8 = none := by decide
+
+/-- the subpacket parser itself still normalises (it does so for the unhashed area, which is not
+hashed): `Revocable 02` is read as `false` and would be written back as `00` -/
+theorem subpacket_parser_still_normalises_witness :
+    (Wire.areaParse (fun _ => none) 4 [2, 7, 2]).bind Wire.areaSer = some [2, 7, 0] ∧
+    Wire.areaParseCanon (fun _ => none) [2, 7, 2] = none ∧
+    (Wire.areaParseCanon (fun _ => none) [2, 7, 0]).isSome = true := by decide
+
+/-- **the full statement that D2b violated**: the message parser accepts a prefixed Signature packet
+exactly when the packet parser accepts it as a standalone packet … -/
+theorem prefixed_sig_exact (body : Bytes) : parseSigPrefix body = parseSig body := by
   unfold parseSigPrefix
-  rw [if_pos h]
+  rw [if_pos (by decide)]
 
-/-- the negation on a witness: a stray octet after the signature value is refused by the packet
-parser and accepted by the message parser -/
-theorem prefixed_sig_trailing_octet_witness :
-    parseSig Toy.bodyT = none ∧ parseSigPrefix Toy.bodyT = parseSig Toy.bodyA ∧ (parseSig Toy.bodyA).isSome = true := by
+/-- … and likewise a One-Pass Signature packet -/
+theorem prefixed_ops_exact (body : Bytes) : parseOpsPrefix body = Wire.opsParse body := by
+  unfold parseOpsPrefix
+  rw [if_pos (by decide)]
+
+/-- regression (the former D2b witness): a stray octet after the signature value is refused by both
+parsers; the pre-fix message parser (`parseSigPrefixPreFix`) accepted it as the signature without
+the octet -/
+theorem prefixed_sig_trailing_octet_refused_witness :
+    parseSig Toy.bodyT = none ∧ parseSigPrefix Toy.bodyT = none ∧
+    parseSigPrefixPreFix Toy.bodyT = parseSig Toy.bodyA ∧ (parseSig Toy.bodyA).isSome = true := by
   decide
 
 /-! ## non-vacuity: the hypotheses are satisfiable together with a successful verification -/
